@@ -221,6 +221,12 @@ impl Searcher {
             }
         }
 
+        // A node abandoned by the clock has only seen some of its children: its score is
+        // not a result and must not be cached for later searches
+        if self.timer.should_stop() {
+            return best_result;
+        }
+
         let bound = self.determine_bound(best_result.score, original_alpha, beta);
         #[cfg(flounder_verif)]
         self.verif_note_store(board);
